@@ -1,11 +1,12 @@
 package packet
 
 import (
+	"bytes"
 
 	vp "github.com/Tnze/go-mc/internal/zzvp"
 )
 
-// refLEB128 is the textbook unsigned LEB128 encoder of the low `bits` bits.
+// vpRefLEB is the textbook unsigned LEB128 encoder.
 func vpRefLEB(v uint64) (out [10]byte, n int) {
 	for {
 		b := byte(v & 0x7F)
@@ -21,6 +22,7 @@ func vpRefLEB(v uint64) (out [10]byte, n int) {
 	}
 }
 
+// encode: bytes, count and Len() equal the reference for all 2^32 values.
 func VP_C05_enc32() {
 	v := VarInt(vp.Int32())
 	var buf [MaxVarIntLen]byte
@@ -30,6 +32,160 @@ func VP_C05_enc32() {
 	vp.Assert(n == v.Len(), "count==Len")
 	for i := 0; i < m; i++ {
 		vp.Assert(buf[i] == ref[i], "byte==reference")
+	}
+	vp.Cover("end")
+}
+
+func VP_C05_enc64() {
+	v := VarLong(vp.Int64())
+	var buf [MaxVarLongLen]byte
+	n := v.WriteToBytes(buf[:])
+	ref, m := vpRefLEB(uint64(v))
+	vp.Assert(n == m, "count==reference")
+	vp.Assert(n == v.Len(), "count==Len")
+	for i := 0; i < m; i++ {
+		vp.Assert(buf[i] == ref[i], "byte==reference")
+	}
+	vp.Cover("end")
+}
+
+// WriteTo emits the same bytes and reports their number.
+func VP_C05_writeto32() {
+	v := VarInt(vp.Int32())
+	var w bytes.Buffer
+	n, err := v.WriteTo(&w)
+	ref, m := vpRefLEB(uint64(uint32(v)))
+	vp.Assert(err == nil, "err==nil")
+	vp.Assert(n == int64(m) && w.Len() == m, "n==reference count")
+	vp.Assert(v.Len() == m, "Len==reference count")
+	out := w.Bytes()
+	for i := 0; i < m; i++ {
+		vp.Assert(out[i] == ref[i], "byte==reference")
+	}
+	vp.Cover("end")
+}
+
+func VP_C05_writeto64() {
+	v := VarLong(vp.Int64())
+	var w bytes.Buffer
+	n, err := v.WriteTo(&w)
+	ref, m := vpRefLEB(uint64(v))
+	vp.Assert(err == nil, "err==nil")
+	vp.Assert(n == int64(m) && w.Len() == m, "n==reference count")
+	vp.Assert(v.Len() == m, "Len==reference count")
+	out := w.Bytes()
+	for i := 0; i < m; i++ {
+		vp.Assert(out[i] == ref[i], "byte==reference")
+	}
+	vp.Cover("end")
+}
+
+// decode(encode(v)) == v, n == count, reader advanced by exactly n with
+// arbitrary trailing bytes; through the io.ByteReader path and the wrapper path.
+func VP_C05_dec32() {
+	v := VarInt(vp.Int32())
+	ref, m := vpRefLEB(uint64(uint32(v)))
+	trail := vp.Bytes(3)
+	stream := append(append([]byte{}, ref[:m]...), trail...)
+	var got VarInt
+	if vp.Choice(2) == 0 {
+		r := bytes.NewReader(stream)
+		n, err := got.ReadFrom(r)
+		vp.Assert(err == nil, "err==nil")
+		vp.Assert(got == v, "value")
+		vp.Assert(n == int64(m), "n==count")
+		vp.Assert(r.Len() == len(trail), "residual stream")
+	} else {
+		r := &vpPlainReader{b: stream}
+		n, err := got.ReadFrom(r)
+		vp.Assert(err == nil, "err==nil")
+		vp.Assert(got == v, "value")
+		vp.Assert(n == int64(m), "n==count")
+		vp.Assert(r.pos == m, "residual stream")
+	}
+	vp.Cover("end")
+}
+
+func VP_C05_dec64() {
+	v := VarLong(vp.Int64())
+	ref, m := vpRefLEB(uint64(v))
+	trail := vp.Bytes(3)
+	stream := append(append([]byte{}, ref[:m]...), trail...)
+	var got VarLong
+	if vp.Choice(2) == 0 {
+		r := bytes.NewReader(stream)
+		n, err := got.ReadFrom(r)
+		vp.Assert(err == nil, "err==nil")
+		vp.Assert(got == v, "value")
+		vp.Assert(n == int64(m), "n==count")
+		vp.Assert(r.Len() == len(trail), "residual stream")
+	} else {
+		r := &vpPlainReader{b: stream}
+		n, err := got.ReadFrom(r)
+		vp.Assert(err == nil, "err==nil")
+		vp.Assert(got == v, "value")
+		vp.Assert(n == int64(m), "n==count")
+		vp.Assert(r.pos == m, "residual stream")
+	}
+	vp.Cover("end")
+}
+
+// arbitrary 12-byte buffers: never more than 5 / 10 bytes consumed, and an
+// error when the first 5 / 10 bytes all carry the continuation bit. Nothing is
+// asserted about the value decoded from non-minimal encodings.
+func VP_C05_cap32() {
+	b := vp.Bytes(12)
+	var got VarInt
+	var used int
+	var n int64
+	var err error
+	if vp.Choice(2) == 0 {
+		r := bytes.NewReader(b)
+		n, err = got.ReadFrom(r)
+		used = len(b) - r.Len()
+	} else {
+		r := &vpPlainReader{b: b}
+		n, err = got.ReadFrom(r)
+		used = r.pos
+	}
+	vp.Assert(used <= MaxVarIntLen, "consumed<=5")
+	allCont := true
+	for i := 0; i < MaxVarIntLen; i++ {
+		allCont = allCont && b[i]&0x80 != 0
+	}
+	vp.Assert(!allCont || err != nil, "long continuation run is an error")
+	if err == nil {
+		vp.Assert(n == int64(used), "n==consumed")
+		// the bytes consumed end at the first byte without continuation bit
+		vp.Assert(b[used-1]&0x80 == 0, "stops at terminator")
+	}
+	vp.Cover("end")
+}
+
+func VP_C05_cap64() {
+	b := vp.Bytes(12)
+	var got VarLong
+	var used int
+	var n int64
+	var err error
+	if vp.Choice(2) == 0 {
+		r := bytes.NewReader(b)
+		n, err = got.ReadFrom(r)
+		used = len(b) - r.Len()
+	} else {
+		r := &vpPlainReader{b: b}
+		n, err = got.ReadFrom(r)
+		used = r.pos
+	}
+	vp.Assert(used <= MaxVarLongLen, "consumed<=10")
+	allCont := true
+	for i := 0; i < MaxVarLongLen; i++ {
+		allCont = allCont && b[i]&0x80 != 0
+	}
+	vp.Assert(!allCont || err != nil, "long continuation run is an error")
+	if err == nil {
+		vp.Assert(n == int64(used), "n==consumed")
+		vp.Assert(b[used-1]&0x80 == 0, "stops at terminator")
 	}
 	vp.Cover("end")
 }
